@@ -73,6 +73,12 @@ where
         }
     }
 
+    /// Verification-only public constructor.
+    #[cfg(p2panda_p2panda_verif)]
+    pub fn verif_new(operation: Operation<E>, log_id: L, topic: TP, prune_flag: PruneFlag) -> Self {
+        Self::new(operation, log_id, topic, prune_flag)
+    }
+
     /// System-level data (append-only log, pruning coordination, etc.) of this operation.
     pub fn header(&self) -> &Header<E> {
         &self.operation.header
